@@ -36,7 +36,7 @@ CHECKS = {
     "C04": dict(
         level="exploration",
         technique="runtime monitoring: mini-shaper + identity-stamped sources over generated builds in all 13 formats; name-collision recorder H8",
-        text="Fonts in every colour format are built from identity-stamped sources (unique colour and size, PNG bytes for bitmap formats) whose file names encode hostile codepoint sequences and go through the real write_glyphmap / features / write_font code. A cmap+ccmp mini-shaper must reach exactly one glyph per sequence, the identity recovered from that glyph (COLR layer colour, SVG fill, stored PNG bytes, outline bounds) must be the source's, distinct sources must reach distinct glyphs, .notdef / space / sequence-only codepoints must be as stated and every advance must follow the rule.",
+        text="Fonts in every colour format are built from identity-stamped sources (unique colour and size, PNG bytes for bitmap formats) whose file names encode hostile codepoint sequences and go through the real write_glyphmap / features / write_font code. A cmap+ccmp mini-shaper must reach exactly one glyph per sequence, the identity recovered from that glyph (COLR layer colour, SVG fill, stored PNG bytes, outline bounds) must be the source's, distinct sources must reach distinct glyphs, .notdef / space / sequence-only codepoints must be as stated and every advance must follow the rule. Near-miss spellings of each source (VS16/ZWJ dropped or added, prefix, suffix, reversal) that are not sources must not end on a source's glyph.",
         design="3/C04",
     ),
     "C06": dict(
@@ -66,7 +66,7 @@ CHECKS = {
     "C16": dict(
         level="exploration",
         technique="runtime monitoring: compile/decompile round-trip oracle with a field-quantum error model on paint.transformed, gradient-parameter invariance on apply_transform, recomposition of the uniform/residual split, spec matrices vs Paint.from_ot(...).gettransform(); contracts H1/H7 inside every build",
-        text="Boundary-targeted affines and gradients are pushed through the real encoder functions, compiled into a real COLR table with fontTools and decompiled; the decompiled paints must compose to the requested affine within what half a quantum of each F2Dot14/Fixed field explains (integer fields must be exact), out-of-range values must end in a wider encoding or an exception, gradient colour parameters must be preserved, and nanoemoji's gettransform of every static transform paint must equal the spec matrix.",
+        text="Boundary-targeted affines and gradients are pushed through the real encoder functions, compiled into a real COLR table with fontTools and decompiled; the decompiled paints must compose to the requested affine within what half a quantum of each F2Dot14/Fixed field explains (integer fields must be exact), out-of-range values must end in a wider encoding or an exception, gradient colour parameters must be preserved, and nanoemoji's gettransform of every static transform paint must equal the spec matrix. Lane E drives svg._apply_paint with gradients under 1-3 nested transform paints plus an incoming reuse transform and judges the written gradient with the independent SVG evaluator (exact 3-decimal rounding box). The repository's own test suite is also run with every contract installed.",
         design="3/C16",
     ),
     "C11": dict(
@@ -96,13 +96,13 @@ CHECKS = {
     "C08": dict(
         level="exploration",
         technique="runtime monitoring: repeated real CLI builds under perturbed schedules (ninja -j, injected per-step delays), argument orders, hash seeds and directories; byte-equality oracle over sha256; step event logs count the distinct completion orders observed",
-        text="Each (format, source set) class is built six times by the real nanoemoji CLI with permuted arguments, glob vs list in TOML, four PYTHONHASHSEED values, -j1/-j4/-j16 with randomised step delays injected by PATH shims and a sitecustomize module, deep build directories with spaces, different working directories and relative vs absolute paths; font, feature file and glyph-map rows must hash equal. An in-process multiplier rebuilds generated source sets in fresh interpreters under four hash seeds. Held on the schedules observed (their count is in the evidence).",
+        text="Each (format, source set) class is built six times by the real nanoemoji CLI with permuted arguments, glob vs list in TOML, four PYTHONHASHSEED values, -j1/-j4/-j16 with randomised step delays injected by PATH shims and a sitecustomize module, deep build directories with spaces, different working directories and relative vs absolute paths; font, feature file and glyph-map rows must hash equal. An in-process multiplier rebuilds generated source sets in fresh interpreters under four hash seeds. Held on the schedules observed (their count is in the evidence). CLI classes also spread sources over two directories spelled from either, include an ambiguous class (same file name in both directories: same outcome required for every spelling), and reach one build directory through a symbolic link.",
         design="3/C08",
     ),
     "C09": dict(
         level="fault_enumeration",
         technique="runtime monitoring with fault injection: single-fault enumeration over every edge of the real ninja graph (fail / kill with truncated output), driver kills at every build statement, process-group SIGKILL, each in a first build and in an incremental rebuild, plus random edit/option/fault histories; convergence oracle = byte equality with a clean build, exit-status oracle from the event log",
-        text="Faults are injected from outside (PATH shims for resvg/pngquant/ninja, sitecustomize for the driver, picosvg and every python -m step). For the quick tier the glyf_colr_1 graph is enumerated completely (every edge x {exit non-zero, killed after truncating its output}, driver killed after the config write and after each build statement, group kill), in a first build and in an incremental rebuild, plus samples of the picosvg and cbdt graphs and 16 random histories; the thorough tier enumerates all three graphs and 160 histories. After each history one fault-free invocation must reproduce the clean build's bytes and every invocation with a fired fault must have exited non-zero.",
+        text="Faults are injected from outside (PATH shims for resvg/pngquant/ninja, sitecustomize for the driver, picosvg and every python -m step). For the quick tier the glyf_colr_1 graph is enumerated completely (every edge x {exit non-zero, killed after truncating its output}, driver killed after the config write and after each build statement, group kill), in a first build and in an incremental rebuild, plus samples of the picosvg and cbdt graphs and 16 random histories; the thorough tier enumerates all three graphs and 160 histories. After each history one fault-free invocation must reproduce the clean build's bytes and every invocation with a fired fault must have exited non-zero. Lane (c): fault-free enumeration of single-source edits and option changes on a populated build directory (one source's quantisation is declined by pngquant), each compared with the clean build.",
         design="3/C09",
         note="Trusted base: ninja's mtime/log semantics, the event log written by the shims; edits advance mtime; bytes comparable across directories (C08).",
     ),
@@ -115,7 +115,7 @@ CHECKS = {
     "C20": dict(
         level="exploration",
         technique="runtime monitoring: per-option observable map read from fonts written by the real CLI over the full (option, value, way) matrix, and byte equality of joint vs separate builds for multi-config invocations",
-        text="Every FontConfig option with a user-visible observable is given by flag, by file, by both with different values (flag must win) and not at all (default), on small source sets in the format family it applies to; the observable is read from the font the CLI wrote. For every listed option pair two TOML configurations sharing sources are built in one invocation and each font must equal, byte for byte, the font its configuration produces alone. The whole matrix (185 cases, ~210 CLI builds) is enumerated on every run.",
+        text="Every FontConfig option with a user-visible observable is given by flag, by file, by both with different values (flag must win) and not at all (default), on small source sets in the format family it applies to; the observable is read from the font the CLI wrote. For every listed option pair two TOML configurations sharing sources are built in one invocation and each font must equal, byte for byte, the font its configuration produces alone. The whole matrix (185 cases, ~210 CLI builds) is enumerated on every run. The transform option is also observed in the OT-SVG and glyf families, and ten options are re-given with another value on a second run in a build directory that already holds a font.",
         design="3/C20",
     ),
     "C12": dict(
@@ -127,7 +127,7 @@ CHECKS = {
     "C18": dict(
         level="exploration",
         technique="runtime monitoring: COLR evaluator at variation locations (gvar glyph sets, VarStore deltas for variable paints and ClipBox format 2) vs static builds of each master; interior-location clip-box containment",
-        text="Multi-master configurations whose masters are consistent deformations of one prototype are built by the real CLI (per-master UFOs, write_variable_font); at every master location the VF's display list, advances and clip-box presence are compared with a static build of that master, the default location is the default master, and at t in {0.25,0.5,0.75} between neighbouring masters the clip box in force must contain the geometry at that location. 'Every location' is sampled, not enumerated.",
+        text="Multi-master configurations whose masters are consistent deformations of one prototype are built by the real CLI (per-master UFOs, write_variable_font); at every master location the VF's display list, advances and clip-box presence are compared with a static build of that master, the default location is the default master, and at t in {0.25,0.5,0.75} between neighbouring masters the clip box in force must contain the geometry at that location. 'Every location' is sampled, not enumerated. One or two axes (declared in either tag order), 2-4 masters with designer-style names and optional same-leaf source directories; a third of the cases edit a non-default master, re-run in the same build directory and compare that master again.",
         design="3/C18",
     ),
 }
@@ -163,7 +163,7 @@ def main():
         "setup_cmd": "bin/setup.sh",
         "hooks": {
             "guard": "NANOEMOJI_VERIF",
-            "enable": "no source hooks: bin/check sets NANOEMOJI_VERIF=1 and PYTHONPATH=/repo/src:/verif:/verif/.deps; vf/hooks/contracts.py wraps the real functions at import time (in-process lane) and vf/hooks/sitecustomize.py does the same inside every CLI step (CLI lane)",
+            "enable": "no source hooks: bin/check sets NANOEMOJI_VERIF=1 and PYTHONPATH=/repo/src:/verif:/verif/.deps; vf/hooks/contracts.py wraps the real functions at import time (in-process lane) and vf/hooks/site/sitecustomize.py does the same inside every CLI step (CLI lane)",
             "baseline_off_cmd": "cd /repo && /venv/bin/python -m pytest -ra -q -p no:cacheprovider --timeout=900 --continue-on-collection-errors",
             "source_commits": [],
             "add_only": True,
